@@ -13,16 +13,16 @@ TB = ("Trusted base: CPython 3.12, numpy 1.26, Hypothesis 6.168 (seeded by VERIF
 P = {
  "C01": ("generated integer/Gaussian-integer configurations vs exact rational span/intersection; permutation, round-trip and normalisation metamorphic relations", "4 C01"),
  "C02": ("exhaustive {-1,0,1} lattice enumeration + generated constructed degeneracies vs exact rank classification", "4 C02"),
- "C03": ("metamorphic: rescale one argument's homogeneous representative, compare results of ~every public operation", "4 C03"),
+ "C03": ("metamorphic: rescale one argument's homogeneous representative, compare results of ~every public operation; conic constructors on lattice data with every argument rescaled", "4 C03"),
  "C04": ("differential: collection call vs element-wise single calls over generated shapes and broadcasts", "4 C04"),
- "C05": ("model-based: generated tensor-diagram programs vs a reference index-bookkeeping model evaluated by explicit einsum/loops; exhaustive epsilon/delta tables", "4 C05"),
- "C06": ("generated invertible integer matrices, exponents and application histories on every object kind; group laws", "4 C06"),
+ "C05": ("model-based: generated tensor-diagram programs (incl. narrow integer types) vs a reference index-bookkeeping model evaluated by explicit einsum/loops in exact integers; exhaustive epsilon/delta tables and epsilon-epsilon contractions", "4 C05"),
+ "C06": ("generated invertible integer matrices, exponents and application histories on every object kind; group laws; collections of up to 70 integer-typed matrices vs element-wise results", "4 C06"),
  "C07": ("metamorphic: conjugation of incidence/join/meet/tangency/cross-ratio configurations by generated non-affine maps", "4 C07"),
  "C08": ("generated parameters vs Cartesian closed forms of the constructors; frame mapping round-trips", "4 C08"),
  "C09": ("generated finite objects vs Euclidean closed forms; symmetry and isometry metamorphic relations", "4 C09"),
  "C10": ("generated lines/planes/points incl. exactly-incident ones vs Cartesian definitions and exact predicates", "4 C10"),
  "C11": ("generated parameters on a line/pencil vs exact Fraction cross ratio; symmetry and invariance relations", "4 C11"),
- "C12": ("stateful rule-based machine over a shared object pool with deep snapshots and re-asked queries", "4 C12"),
+ "C12": ("stateful rule-based machine over a shared object pool with deep snapshots, re-asked queries and history-free clones; enumerated query-derive-query triples; generated query sequences over the process-wide epsilon/delta tables", "4 C12"),
  "C13": ("generated defining data vs parametrised Cartesian loci and textbook measures", "4 C13"),
  "C14": ("generated quadrics with exact rational points, secant/tangent/missing lines vs exact restriction roots; pole/polar/dual relations", "4 C14"),
  "C15": ("exhaustive lattice of line pairs + generated plane pairs/pencils with planted repeated roots vs the generating pair / exact common points", "4 C15"),
